@@ -8,5 +8,7 @@ rsync -a --exclude 'Gen/' --exclude '*.vo' --exclude '*.glob' --exclude '*.aux' 
 mkdir -p $SB/Gen
 for f in Upper.v LexTable.v Schema.v Static.v Flow.v Frame.v; do git -C /verif show HEAD:coq/Gen/$f > $SB/Gen/$f.new; cmp -s $SB/Gen/$f.new $SB/Gen/$f || mv $SB/Gen/$f.new $SB/Gen/$f; rm -f $SB/Gen/$f.new; done
 cd $SB
+# SB_EXTRA: files not (yet) in _CoqProject, appended in the scratch copy only
+for f in $SB_EXTRA; do grep -q "^$f\$" _CoqProject || echo $f >> _CoqProject; done
 coq_makefile -f _CoqProject -o Makefile >/dev/null 2>&1
 timeout 1500 make -j12 "$@" 2>&1 | grep -v "^COQDEP\|^COQC\|Warning\|^make\[" | tail -40
